@@ -138,6 +138,8 @@ def gen_plan(rng, index, tier):
     cfg["path2"] = path2 + [path2_end]
     cfg["sharedDict"] = rng.random() < 0.4
     cfg["linked"] = rng.random() < 0.6
+    if cfg["linked"] and rng.random() < 0.35:
+        steps.insert(rng.randrange(0, max(1, len(steps) - 1)), {"op": "freeze"})
     if cfg["linked"] and rng.random() < 0.5:
         # a hot (or cold) value assigned *through* the companion's link, keeping the link
         steps.insert(rng.randrange(1, len(steps) + 1), {"op": "setdim_link", "factor": rng.choice([0.98, 1.03]), "cold": rng.random() < 0.4})
@@ -205,7 +207,8 @@ def execute(plan):
         c.setNumberDensities({"FE56": 0.04, "NI58": 0.011})
         nonzero = True
         probes["explicit_composition"] = 1
-    companion = None
+    companion = film = None
+    frozen = [None]
     if cfg.get("linked") and te_dims:
         from armi.reactor.components import Circle
 
@@ -213,6 +216,9 @@ def execute(plan):
         # a dimension linked to another component, declared the way blueprints do ("name.dim")
         companion = Circle("linked", "HT9", Tinput=25.0, Thot=25.0, od=1000.0, id=f"c.{d0}", mult=1)
         companion.resolveLinkedDims({"c": c})
+        # ... and a third one linked to the companion's linked dimension (a chain of two links)
+        film = Circle("film", "HT9", Tinput=25.0, Thot=25.0, od=2000.0, id="linked.id", mult=1)
+        film.resolveLinkedDims({"linked": companion, "c": c})
     # a second component of the same design that received its composition from the same dict (an
     # enrichment-zoning loop does that); it stays at its temperature while the first one moves
     twin = comp_dict = twin_nd0 = None
@@ -268,9 +274,15 @@ def execute(plan):
                 fail("C03.density", f"{tag}: the caller's composition dict was changed by armi", what="caller-dict")
         if companion is not None:
             got = float(companion.getDimension("id"))
-            want = float(c.getDimension(te_dims[0]))
+            want = float(c.getDimension(te_dims[0])) if frozen[0] is None else frozen[0]
             if not rel(got, want):
-                fail("C03.link", f"{tag}: dimension linked to {te_dims[0]} reads {got}, the target's current value is {want}", what="link")
+                if frozen[0] is None:
+                    fail("C03.link", f"{tag}: dimension linked to {te_dims[0]} reads {got}, the target's current value is {want}", what="link")
+                else:
+                    fail("C03.setdim", f"{tag}: a dimension that was given its own value {want} (in place of a link) reads {got}", what="unlinked-value")
+            got2 = float(film.getDimension("id"))
+            if not rel(got2, got):
+                fail("C03.link", f"{tag}: a dimension linked to the companion's dimension reads {got2}, the companion's current value is {got}", what="chain")
 
     mph_ref = [mass_per_height(c) if nonzero else None]
     _ = (mph0, area_in)
@@ -304,8 +316,18 @@ def execute(plan):
             probes["factor_queries"] = probes.get("factor_queries", 0) + 1
             log.add("factor", st["T0"], Tc)
             check(f"step {k} (after asking for the factor from {st['T0']} C)")
+        elif st["op"] == "freeze":
+            # the companion's linked dimension is given a value of its own: exactly what it reads now
+            if companion is None or frozen[0] is not None:
+                continue
+            v = float(companion.getDimension("id"))
+            companion.setDimension("id", v, cold=False)
+            frozen[0] = v
+            probes["link_replaced_by_its_current_value"] = 1
+            log.add("freeze", v)
+            check(f"step {k} (after the link was replaced by its current value)")
         elif st["op"] == "setdim_link":
-            if companion is None or fluidish:
+            if companion is None or fluidish or frozen[0] is not None:
                 continue
             d = te_dims[0]
             newv = (cold[d] if st["cold"] else float(c.getDimension(d))) * st["factor"]
